@@ -18,6 +18,12 @@ def dec(mode, n, cap, tiers):
 OBLIGATIONS += [dec(1, 6, 4, ["quick", "thorough"]), dec(2, 6, 3, ["quick", "thorough"]), dec(3, 5, 0, ["quick", "thorough"]),
                 dec(1, 9, 6, ["thorough"]), dec(2, 8, 4, ["thorough"]), dec(3, 8, 0, ["thorough"])]
 
+def spl(n, tiers, timeout=300):
+    return dict(name="split_line_arbitrary_n%d" % n, harness="harness/C07_splitline.c", sources=[], included_sources=["lib/util/src/split_line.c"],
+        defines=dict(N=n), unwind=n + 3, unwindset={"strchr.0": 4}, termination=True, tiers=tiers, timeout=timeout, reach=["ok", "rejected"],
+        functions=["split_line, append_arg, is_sep (lib/util/src/split_line.c)"], bound="every line of <= %d bytes (all byte values), separators space and tab" % n)
+OBLIGATIONS += [spl(5, ["quick", "thorough"]), spl(8, ["thorough"], 1800)]
+
 ASSUMPTIONS = ["ctype classification = C locale (stubs/vp_ctype.c)", "path lookup replaced by a symbolic graph (superset of all archives / pack files)"]
 OUTSIDE = ["zlib/xz/zstd/bzip2 on corrupt streams", "glob.c against a real directory"]
 META = dict(
